@@ -13,11 +13,14 @@ import sys
 import numpy as np
 import pandas as pd
 
-TEMPLATES = ["once", "stateful", "targetvol", "random", "nested", "perm", "momentum", "overtime_nested", "equal_limit"]
+TEMPLATES = ["once", "stateful", "targetvol", "random", "nested", "perm", "momentum", "overtime_nested", "equal_limit", "replay"]
 CONFIGS = [
     {"data": "d25", "fee": None, "integer": True},
     {"data": "d12", "fee": "propdec", "integer": False},
     {"data": "d25", "fee": "maxflat", "integer": True, "alpha": "decimal"},
+    # one ticker multiplies in mid-run: weight limits and dead-price handling come into play late
+    {"data": "d25", "fee": None, "integer": False, "jump": ["a", 8.0]},
+    {"data": "d12", "fee": None, "integer": False, "jump": ["b", 0.0]},
 ]
 
 
@@ -48,6 +51,13 @@ def template(name, idx):
         return bt.Strategy("t", [log, A.ClosePositionsAfterDates("closes"), A.RunDaily(), A.SelectThese(["a", "b", "d"]), A.SelectActive(), A.WeighEqually(), A.Rebalance()], [bt.Security("a"), bt.Security("b"), bt.Security("d")])
     if name == "perm_random":
         return bt.Strategy("t", [log, A.ClosePositionsAfterDates("closes"), A.RunDaily(), A.SelectAll(), A.SelectActive(), A.SelectRandomly(2), A.WeighRandomly(), A.Rebalance()], [bt.Security("a"), bt.Security("b"), bt.Security("c"), bt.Security("d")])
+    if name == "replay":
+        return bt.Strategy("t", [log, A.ReplayTransactions("tx")], [bt.Security("a"), bt.Security("b")])
+    if name == "equal_wide_limit":
+        # the limit is wider than the equal weight: nothing is clamped until a price jumps
+        return bt.Strategy("t", [log, A.RunDaily(), A.SelectThese(["a", "b", "d"]), A.WeighEqually(), A.LimitDeltas(0.4), A.Rebalance()])
+    if name == "equal_closedead":
+        return bt.Strategy("t", [log, A.RunDaily(), A.SelectThese(["a", "b", "d"]), A.WeighEqually(), A.CloseDead(), A.Rebalance()])
     if name == "equal_limit":
         return bt.Strategy("t", [log, A.RunDaily(), A.SelectThese(["a", "b", "d"]), A.WeighEqually(), A.LimitDeltas(0.125), A.Rebalance()])
     if name == "momentum":
@@ -64,11 +74,20 @@ def inputs(cfg):
     from .. import runfam as R, tree as T
 
     data = R.table(cfg["data"], cfg.get("alpha", "exact"))
+    if cfg.get("jump"):
+        col, f = cfg["jump"]
+        v = data[col].values.copy()
+        v[len(v) // 2:] = v[len(v) // 2:] * f
+        data[col] = v
     idx = data.index
     closes = pd.DataFrame({"date": [idx[len(idx) // 2], idx[3]]}, index=["a", "d"])
     # a table on the data's own index (Backtest re-frames such tables with the synthetic first row:
     # it must do so on its own copy of the dict)
     ad = {"closes": closes, "sig": pd.DataFrame(True, index=idx, columns=data.columns)}
+    # a blotter grouped by security (not sorted by time), on its own index: handed through by reference
+    rows = [(idx[i], c, q, float(data[c].iloc[i]) + 0.25) for c, qs in (("a", (4.0, -2.0, 6.0)), ("b", (2.0, 2.0, -4.0))) for i, q in zip((7, 2, 4) if c == "a" else (1, 6, 3), qs)]
+    ad["tx"] = pd.DataFrame({"quantity": [r[2] for r in rows], "price": [r[3] for r in rows]}, index=pd.MultiIndex.from_tuples([(r[0], r[1]) for r in rows], names=["Date", "Security"]))
+    ad["bidoffer"] = pd.DataFrame(0.0, index=idx, columns=data.columns)
     return data, ad
 
 
@@ -183,6 +202,25 @@ def hashseed_case(item):
     return ("ok", viols, len(seeds))
 
 
+def history_case(item):
+    """a backtest in a process that has already run other backtests (other data, same template and
+    library) equals the same backtest in a pristine process: nothing is left behind in the library"""
+    from .. import rt
+
+    tname, ci, pre = item
+    outs = []
+    for history in ([], pre):
+        env = dict(os.environ, PYTHONHASHSEED="0", MPLBACKEND="Agg", PYTHONWARNINGS="ignore")
+        r = subprocess.run(["/venv/bin/python", "-m", "btmc.props.c11", rt._state["dir"], rt.kind(), tname, str(ci), json.dumps(history)], capture_output=True, text=True, env=env, cwd=os.path.dirname(os.path.dirname(os.path.dirname(os.path.abspath(__file__)))))
+        if r.returncode != 0:
+            return ("crash", [{"rule": "crash", "observed": (r.stderr or r.stdout)[-300:]}], 0)
+        outs.append(r.stdout.strip().splitlines()[-1])
+    viols = []
+    if outs[0] != outs[1]:
+        viols.append({"rule": "depends_on_process_history", "expected": {"equals": "the same backtest in a pristine process", "earlier_backtests": pre}, "observed": "histories differ"})
+    return ("ok", viols, 2)
+
+
 def linear_extensions(k):
     evs = [("C", i) for i in range(k)] + [("R", i) for i in range(k)]
     out = []
@@ -196,12 +234,14 @@ def linear_extensions(k):
 def replay(case):
     if case["kind"] == "hashseed":
         return hashseed_case(tuple(case["where"]))[1]
+    if case["kind"] == "history":
+        return history_case(tuple(case["where"]))[1]
     w = case["where"]
     return schedule_case((w[0], w[1], [tuple(e) for e in w[2]], w[3] if len(w) > 3 else False))[1]
 
 
 def run(ctx):
-    ctx.rule = "every linear extension of {construct_i < run_i} for k=2 (6 orders) and k=3 (90 orders) backtests built from one template, over templates with stateful, in-place-mutating, perm-using and seeded random algos x same / different data, commission and position mode; the same backtest under interpreter hash seeds; a schedule is non-trivial if all its backtests completed"
+    ctx.rule = "every linear extension of {construct_i < run_i} for k=2 (6 orders) and k=3 (90 orders) backtests built from one template, over templates with stateful, in-place-mutating, perm-using and seeded random algos x same / different data, commission and position mode; the same backtest under interpreter hash seeds; the same backtest in a pristine process and in one that has run other backtests (a price jump, a dead price, another cost model) before; a schedule is non-trivial if all its backtests completed"
     ctx.assumptions += [
         "random algos: the RNG is seeded per run event (the seed is part of the input)",
         "isolation oracle: SHA-1 over every recorded series of every node equals that of the same backtest built from a fresh template and run alone",
@@ -210,7 +250,7 @@ def run(ctx):
     kinds = ["py"] if ctx.tier == "quick" else ["py", "cy"]
     if ctx.tier == "quick":
         k0 = ctx.seed % len(TEMPLATES)
-        tn = sorted(set([TEMPLATES[k0], TEMPLATES[(k0 + 3) % len(TEMPLATES)], "perm", "targetvol", "random", "equal_limit"]))
+        tn = sorted(set([TEMPLATES[k0], TEMPLATES[(k0 + 3) % len(TEMPLATES)], "perm", "targetvol", "random", "equal_limit", "replay"]))
         seeds = [0, 1, 2, 3]
     else:
         tn = TEMPLATES
@@ -226,7 +266,8 @@ def run(ctx):
                 if ctx.tier != "quick":
                     items.append((t, [CONFIGS[0]] * 3, order, True))
     hs = [(t, ci, seeds) for t in (tn + ["random_decl", "perm_random"]) for ci in (0, 1)]
-    ctx.bounds = {"templates": tn, "schedules": len(items), "hash_seed_cases": len(hs), "hash_seeds": seeds, "builds": kinds}
+    hist = [(t, ci, [[t, 3], [t, 4], [t, 1]]) for t in (TEMPLATES + ["equal_wide_limit", "equal_closedead"] if ctx.tier != "quick" else sorted(set(tn + ["equal_wide_limit", "equal_closedead", "momentum"]))) for ci in ((0,) if ctx.tier == "quick" else (0, 1))]
+    ctx.bounds = {"process_history_cases": len(hist), "templates": tn, "schedules": len(items), "hash_seed_cases": len(hs), "hash_seeds": seeds, "builds": kinds}
     for kind in kinds:
         for item, (status, viols, n) in ctx.run(kind, "btmc.props.c11", "schedule_case", items, chunksize=2):
             ctx.add(transitions=2 * len(item[1]), traces_validated_against_impl=len(item[1]), evaluations=1)
@@ -241,6 +282,12 @@ def run(ctx):
                 ctx.mark((kind, "hs", item[0], item[1]))
             for v in viols:
                 ctx.violation(dict(v, build=kind, module="btmc.props.c11", case={"kind": "hashseed", "where": list(item)}))
+        for item, (status, viols, n) in ctx.run(kind, "btmc.props.c11", "history_case", hist, chunksize=1):
+            ctx.add(states=1, transitions=n + len(item[2]), traces_validated_against_impl=n, evaluations=1)
+            if status == "ok":
+                ctx.mark((kind, "hist", item[0], item[1]))
+            for v in viols:
+                ctx.violation(dict(v, build=kind, module="btmc.props.c11", case={"kind": "history", "where": list(item)}))
     ctx.sample({"template": tn[0], "configs": [CONFIGS[0], CONFIGS[1]], "order": items[3][2]})
 
 
@@ -250,6 +297,11 @@ def _cli():
     from .. import rt
 
     rt.init(bdir, kind)
+    for t2, c2 in json.loads(sys.argv[5]) if len(sys.argv) > 5 else []:
+        try:
+            solo(t2, CONFIGS[c2], 3)
+        except Exception:
+            pass  # an earlier backtest that dies is history all the same
     print(solo(tname, CONFIGS[ci], 7))
 
 
